@@ -32,6 +32,10 @@ COMPONENTS = {
 }
 PROBES = ["upload-exp", "upload-seg", "upload-empty", "download-exp", "download-seg", "download-empty", "garbage-fresh-node",
           "garbage-inside-transfer", "restart-inside-transfer", "refusal", "source-callback", "source-stored", "source-parameter", "source-default"]
+# probes that mark an injected disturbance; the runner also counts them as fired faults in the evidence
+FAULT_PROBES = {'garbage-fresh-node': 'garbage-request-frame',
+ 'garbage-inside-transfer': 'garbage-request-frame',
+ 'restart-inside-transfer': 'transfer-restarted-midway'}
 
 GARBAGE = ("short", "ccs7", "seg-up-idle", "seg-down-idle", "block-down", "block-up", "block-up-sub", "random8",
            "abort", "seg-up-wrong-toggle", "empty-ish")
